@@ -65,6 +65,15 @@ where
         let processed_message = match group.process_message(&self.provider, protocol_message) {
             Ok(processed_message) => processed_message,
             Err(ProcessMessageError::ValidationError(ValidationError::WrongEpoch)) => {
+                // Only commits compete for an epoch (MIP-03). A proposal or application
+                // message from another epoch must never enter the better-commit rollback
+                // path, otherwise a late or re-delivered proposal rolls the group back
+                // behind the commit that was applied for that epoch.
+                if content_type != ContentType::Commit {
+                    return Err(Error::ProcessMessageOther(
+                        ValidationError::WrongEpoch.to_string(),
+                    ));
+                }
                 return Err(Error::ProcessMessageWrongEpoch(msg_epoch));
             }
             Err(ProcessMessageError::ValidationError(ValidationError::CannotDecryptOwnMessage)) => {
